@@ -26,7 +26,7 @@ deriving Repr, DecidableEq
 
 /-- synchronisation-relevant statements of `main` -/
 inductive MStep where
-  | notifySigintSigterm | spawnRunsCounted | spawnStats | awaitSignal | spawnShutdownsCounted | waitAll
+  | notifySigintSigterm | loadElements | spawnRunsCounted | spawnStats | awaitSignal | spawnShutdownsCounted | waitAll
   | unrecognised (go : String)
 deriving Repr, DecidableEq
 
